@@ -71,6 +71,11 @@ def gen_history(rng):
         out = held + rng.uniform(-1, 2) * span
         if rng.random() < 0.1:
             out = held
+        repeat = bool(ticks) and rng.random() < 0.12
+        if repeat:
+            # a caller polling at a fixed rate: the very same output time (and control) as the previous tick,
+            # while new readings stamped exactly at the held time arrive
+            out = ticks[-1][0]
         nr = rng.choice([None, 0, 1, 1, 2, 3, 5])
         if nr is not None and rng.random() < 0.04:
             nr = rng.randint(10, 30)   # a burst (e.g. a sensor buffer flushed at once)
@@ -99,7 +104,9 @@ def gen_history(rng):
                 # the previous tick's readings are handed over again (the very same objects on the Python side)
                 rds = list(ticks[-1][2][: 2]) + rds
                 rng.shuffle(rds)
-        ticks.append((out, rng.randint(1, 9), rds))
+        if repeat and rds is not None:
+            rds = [(held, s_, p_) for (_t, s_, p_) in rds] or [(held, 0, pay + 1000)]
+        ticks.append((out, ticks[-1][1] if repeat else rng.randint(1, 9), rds))
         if rds:
             held = rds[-1][0]
     return mi, md, t0, ticks
